@@ -1,4 +1,6 @@
 import RulioProofs.PatIndexState
+import RulioProofs.ComposeExamples
+import RulioProofs.ComposeSys
 
 /-! # C01 — event dispatch evaluates exactly the rules whose `when` matches: the rule index
 
@@ -19,7 +21,9 @@ It is the composition of
 All statements are about the executable model (`PI.mod`, `PI.search`, `piAdd`, `piRem`, `piSearch`), for every
 fuel above the size bound (`searchFuel`), i.e. the fuel is a proof device and not part of the semantics. -/
 
-open PI
+-- (the `pm*` unfolding lemmas also exist at root level in `RulioProofs/MatchSpecLemmas.lean`, now imported through the
+-- composition lemmas of section 6: the root versions, same statements, are the ones used below)
+open PI hiding pmO_cons_const pmO_nil pmA_cons pmA_nil pmPick_cons pmPick_nil pmv_arr pmv_obj pmv_str
 
 /-! ## 1. what `mod` does -/
 
@@ -351,3 +355,159 @@ theorem repaired_shapes_found :
 #print axioms property_variable_hidden
 #print axioms hetero_event_array_fails
 #print axioms repaired_shapes_found
+
+/-! ## 6. end to end (composition with C05): dispatch evaluates exactly the matching rules
+
+The theorems above speak about the index and take a specification witness `pmv σ when ev` as a hypothesis.  Here
+they are composed with C05 (`match_sound`, `match_ok`: a non-empty matcher answer yields such a witness, and the
+matcher does not fail inside the fragments), with the converse of the index invariant (`state_index_sound`: nothing
+stale sits in the trie), with `doFindRules`, `FindCachedRules`, `RuleEnabled` and the re-match of `FindRules.Do`
+(`processEvent`), into statements about what an `event` op does on one location (no parents: ancestors are C09's).
+Lemmas: `RulioProofs/Compose*.lean`; vocabulary: `RulioModel/ComposeFrag.lean`.
+
+Hypotheses that remain, and why:
+* `NoneExpired s now` — an expired candidate is purged (with its `deleteWith` cascade) in the middle of the rule
+  search, which changes the set of stored rules the specification speaks about (C07 / C08);
+* `whenFrag p` for the stored `when` patterns (indexed kind only) = `IdxOK p` (index fragment, outside: the findings
+  of section 5), `patOK (.obj p)` (matcher fragment of C05) and `linearPattern p` (no variable twice: C05's soundness
+  needs repeated variables bound to scalars, `scalarRepeatsIn`, which is vacuous for linear patterns);
+  `EvOK ev`, `dataOK (.obj ev)` for the event (indexed kind only);
+* `RuleShapes s` — a stored rule body with a `when` map keeps the pattern under the key `pattern` and has no
+  `schedule` key.  Outside, the model's pieces disagree with each other: `GetRulePatterns` (what is indexed and what
+  the linear scan matches) falls back to the `when` map itself, `RuleFromMap` (what the event walk re-matches) to the
+  empty pattern; and the linear scan ignores a `schedule` key that the specification and the index honour;
+* "no error": the statements are about an `event` op whose work tree carries no error; `dispatch_no_error` says
+  when that is the case. -/
+
+/-- **Nothing stale sits in the rule index.**  In every reachable indexed state, an id on a trie node is
+currently stored as a non-scheduled rule whose `when` pattern's path ends at that node (`IdxSound`, the converse
+of `state_index_invariant`).  So a rule that was removed, overwritten by other data, or whose `when` was replaced
+is never found on the strength of its former pattern, and `doFindRules` never meets a lost rule. -/
+theorem state_index_sound (s : St) (h : IReach s) : IdxSound s := (idxSound_of_reach h).2
+
+/-- the trie walk returns only ids that sit in the trie, and none twice (id lists duplicate free) -/
+theorem candidates_sit_in_trie (ri : PI) (ev : Obj) (ids : List String) (h : piSearch ri ev = .ok ids) :
+    (∀ id ∈ ids, ∃ π, id ∈ ri.idsAt π) ∧ (NodupIds ri → ids.Nodup) :=
+  ⟨fun id hid => piSearch_somewhere h id hid, fun hn => piSearch_nodup hn h⟩
+
+/-- **`dispatch_candidates_complete`.**  For every reachable indexed state without expired facts and every event of
+the fragments: whenever the dispatch specification (the brute-force matcher loop over the stored, unexpired,
+non-scheduled rules) lists `(id, bindings)` — i.e. the matcher returns a non-empty result for the stored `when` of
+`id` — and that `when` is in the fragment, `doFindRules` succeeds, leaves the state unchanged, and `id` is among its
+candidates.  No matching rule is skipped because of how rules are indexed; no specification witness is assumed. -/
+theorem dispatch_candidates_complete (s : St) (h : IReach s) (now : Int) (hne : NoneExpired s now)
+    (ev : Obj) (hev : EvOK ev = true) (hdev : dataOK (.obj ev) = true)
+    (out : List (String × List Bs)) (hspec : specDispatchLocal s.facts ev now = .ok out)
+    (id : String) (bss : List Bs) (hmem : (id, bss) ∈ out)
+    (hfrag : ∀ f p, (id, f) ∈ s.facts → whenOf f = some p → whenFrag p = true) :
+    ∃ cands, s.iFindRules ev now = (s, .ok cands) ∧ id ∈ cands.map (·.1) := by
+  obtain ⟨f, pat, hf, _, hw, hm, hnil⟩ := (LocP.specDispatchLocal_mem hspec id bss).1 hmem
+  have hfr := hfrag f pat hf hw
+  simp only [whenFrag, Bool.and_eq_true] at hfr
+  obtain ⟨σ, _, hσ⟩ := match_nonempty_pmv hfr.1.2 hdev hfr.2 hm hnil
+  obtain ⟨hwf, _⟩ := ireach_wf h
+  obtain ⟨ids', hs', hin⟩ := state_index_complete s h ev id f pat σ (amGet_of_mem_nodup_st hwf.keys hf) hw
+    hfr.1.1 hev hσ
+  obtain ⟨ids, cands, hps, hfr', hfst⟩ := iFindRules_total h hne hev
+  rw [hps] at hs'; cases hs'
+  exact ⟨cands, hfr', by rw [hfst]; exact hin⟩
+
+/-- **`dispatch_exact_local`.**  One `event` op on a location without parents (`locProcessEvent`: `searchRules` →
+`RuleEnabled` for every candidate → `processEvent`, composed as in the driver), for **both state kinds**.
+In a well-formed state (`WF`; true after every history, `location_history_good`) without expired facts, whose stored
+rule bodies have the documented shape, and — for the indexed kind only — reachable, with the stored `when` patterns
+in `whenFrag` and the event in `EvOK` / `dataOK`: if the work tree carries no error, then the location is unchanged,
+the dispatch specification filtered by the disabled flags (`specFires`) does not fail, and
+
+* every rule node of the tree is an entry of it — same id, exactly the `when` bindings the matcher yields;
+* the rule nodes are a prefix of a permutation of it (a failing condition or serial action aborts the walk, C04);
+* if the walk was not aborted, the rule nodes are exactly it, up to order.
+
+So indexed dispatch = linear dispatch = specification, with exactly the `when` bindings. -/
+theorem dispatch_exact_local (srch : Srch) (c : Ctx) (ev : Obj) (now : Int) (l l' : Loc) (t : Tree)
+    (hwf : WF l.st) (hne : NoneExpired l.st now) (hshape : RuleShapes l.st)
+    (hidx : l.st.kind = .indexed → IReach l.st ∧ WhenFrag l.st ∧ EvOK ev = true ∧ dataOK (.obj ev) = true)
+    (hrun : locProcessEvent srch c ev now l = (l', t)) (herr : t.err = none) :
+    l' = l ∧ ∃ out, specFires l.st.facts ev now = .ok out ∧
+      (∃ full, full.Perm out ∧ t.fired <+: full) ∧ (∀ x, x ∈ t.fired → x ∈ out) ∧
+      (t.aborted = false → t.fired.Perm out) :=
+  locProcessEvent_exact srch hwf hne hshape hidx hrun herr
+
+/-- **when the `event` op reports no error**: the guards of the rule search let the caller through (the location
+is enabled and the read key fits), every stored `rule` value is a map accepted by `RuleFromMap` (true of rules
+added through `AddRule`), and — linear kind — the specification itself does not fail (no matcher error; for the
+indexed kind this follows from the fragments).  Then the location is unchanged and the tree carries no error:
+a stale index entry never makes a matching event fail (`Rule body missing`, `lost rule`) nor blocks other rules. -/
+theorem dispatch_no_error (srch : Srch) (c : Ctx) (ev : Obj) (now : Int) (l : Loc)
+    (hwf : WF l.st) (hne : NoneExpired l.st now) (hshape : RuleShapes l.st)
+    (hidx : l.st.kind = .indexed → IReach l.st ∧ WhenFrag l.st ∧ EvOK ev = true ∧ dataOK (.obj ev) = true)
+    (hvalid : RulesValid l.st) (hmaps : RuleMaps l.st)
+    (hg : LocP.guardsVerdict c now l (guardsOf "searchRules") = .ok ())
+    (hspecL : l.st.kind = .linear → ∃ out, specDispatchLocal l.st.facts ev now = .ok out) :
+    (locProcessEvent srch c ev now l).1 = l ∧ (locProcessEvent srch c ev now l).2.err = none :=
+  locProcessEvent_no_error srch hwf hne hshape hidx hvalid hmaps hg hspecL
+
+/-- **after any history of Location operations** (`AddRule`, `RemRule`, `EnableRule`, `AddFact` — also under the id
+of a rule —, `RemFact`, `GetFact`, `SearchFacts`, `SearchRules`, `Clear`, whatever they answer) on a fresh location
+the state is well-formed and, if indexed, reachable in the sense of `IReach`: the structural hypotheses of
+`dispatch_exact_local` hold after every history. -/
+theorem location_history_good (name : String) (k : Kind) (ops : List LocOp) :
+    WF ((Loc.fresh name k).run ops).st ∧
+    (((Loc.fresh name k).run ops).st.kind = .indexed → IReach ((Loc.fresh name k).run ops).st) :=
+  stGood_history name k ops
+
+/-- **the ancestor walk on a location without parents is the location's own rule search.**  In a system, for a
+location that stores no `!.parents` property fact, `searchRulesAncestors` (`sysSearchRulesAnc`: `DoAncestors`, then the
+duplicate-id test) answers exactly what the location's `searchRules` answers and writes the location back — so
+`locProcessEvent` above is what the driver's `event` op (`sysSearchRulesAnc` → `RuleEnabled` per candidate →
+`processEvent`) runs there.  The duplicate-id test passes because the candidates of one location carry pairwise
+distinct ids. -/
+theorem ancestor_walk_single (sys : Sys) (c : Ctx) (n : String) (ev : Obj) (now : Int) (l : Loc)
+    (hget : sys.get? n = some l) (hname : l.name = n)
+    (hnp : amGet l.st.facts (genPropId "" "parents") = none)
+    (hwf : WF l.st) (hne : NoneExpired l.st now) (hshape : RuleShapes l.st)
+    (hidx : l.st.kind = .indexed → IReach l.st ∧ WhenFrag l.st ∧ EvOK ev = true ∧ dataOK (.obj ev) = true) :
+    sysSearchRulesAnc sys c n ev now =
+      (((sys.put l).put (locSearchRules c ev now l).1), (locSearchRules c ev now l).2) :=
+  sysSearchRulesAnc_local sys c n ev now l hget hname hnp hwf hne hshape hidx
+
+/-- non-vacuity: on the location history `ComposeEx.cxLoc k` (a rule replaced, a rule disabled, a rule id
+overwritten by a plain fact; either kind) every hypothesis of `dispatch_no_error` and `dispatch_exact_local` holds
+for the event `{"wants":"tacos","likes":["chips","tacos"]}`, so the event reports no error and its rule nodes are
+exactly the specification's -/
+example (k : Kind) (srch : Srch) :
+    (locProcessEvent srch {} ComposeEx.cxEv 7 (ComposeEx.cxLoc k)).2.err = none ∧
+    ∃ out, specFires (ComposeEx.cxLoc k).st.facts ComposeEx.cxEv 7 = .ok out ∧
+      ∀ x, x ∈ (locProcessEvent srch {} ComposeEx.cxEv 7 (ComposeEx.cxLoc k)).2.fired → x ∈ out := by
+  open ComposeEx in
+  have h1 := dispatch_no_error srch {} cxEv 7 (cxLoc k) (cx_good k).1 (cx_noneExpired k) (cx_shapes k) (cx_idx k)
+    (cx_valid k) (cx_maps k) (cx_guards k) (fun _ => cx_spec k)
+  generalize hrun : locProcessEvent srch {} ComposeEx.cxEv 7 (ComposeEx.cxLoc k) = res at h1 ⊢
+  obtain ⟨l', t⟩ := res
+  obtain ⟨_, out, ho, _, hsub, _⟩ := dispatch_exact_local srch {} ComposeEx.cxEv 7 (ComposeEx.cxLoc k) l' t
+    (ComposeEx.cx_good k).1 (ComposeEx.cx_noneExpired k) (ComposeEx.cx_shapes k) (ComposeEx.cx_idx k) hrun h1.2
+  exact ⟨h1.2, out, ho, hsub⟩
+
+/-- non-vacuity of `ancestor_walk_single`: the instance as a one-location system -/
+example (k : Kind) : sysSearchRulesAnc [("home", ComposeEx.cxLoc k)] {} "home" ComposeEx.cxEv 7 =
+    ((Sys.put (Sys.put [("home", ComposeEx.cxLoc k)] (ComposeEx.cxLoc k))
+        (locSearchRules {} ComposeEx.cxEv 7 (ComposeEx.cxLoc k)).1),
+      (locSearchRules {} ComposeEx.cxEv 7 (ComposeEx.cxLoc k)).2) :=
+  ancestor_walk_single _ {} "home" ComposeEx.cxEv 7 (ComposeEx.cxLoc k) (ComposeEx.cx_sys k).2.2 (ComposeEx.cx_sys k).1
+    (ComposeEx.cx_sys k).2.1 (ComposeEx.cx_good k).1 (ComposeEx.cx_noneExpired k) (ComposeEx.cx_shapes k)
+    (ComposeEx.cx_idx k)
+
+/-- non-vacuity of `dispatch_candidates_complete`: its hypotheses hold on the indexed instance -/
+example : IReach (ComposeEx.cxLoc .indexed).st ∧ NoneExpired (ComposeEx.cxLoc .indexed).st 7 ∧
+    EvOK ComposeEx.cxEv = true ∧ dataOK (.obj ComposeEx.cxEv) = true ∧ WhenFrag (ComposeEx.cxLoc .indexed).st ∧
+    ∃ out, specDispatchLocal (ComposeEx.cxLoc .indexed).st.facts ComposeEx.cxEv 7 = .ok out :=
+  ⟨(ComposeEx.cx_good .indexed).2 (ComposeEx.cx_kind .indexed), ComposeEx.cx_noneExpired _, ComposeEx.cx_ev.1,
+   ComposeEx.cx_ev.2, ComposeEx.cx_whenFrag _, ComposeEx.cx_spec _⟩
+
+#print axioms state_index_sound
+#print axioms candidates_sit_in_trie
+#print axioms dispatch_candidates_complete
+#print axioms dispatch_exact_local
+#print axioms dispatch_no_error
+#print axioms location_history_good
+#print axioms ancestor_walk_single
